@@ -52,7 +52,7 @@ func main() {
 	workers := flag.Int("workers", 0, "node processes (default: cores-2)")
 	dump := flag.String("dump", "", "debug: write generated programs to this file")
 	doShrink := flag.Bool("shrink", false, "witness mode: also shrink a failing witness (triage aid)")
-	casesKind := flag.String("cases", "all", "model correspondence data to write: rename | print | all")
+	casesKind := flag.String("cases", "all", "model correspondence data to write: rename | print | all | none")
 	flag.Parse()
 	if *outDir == "" {
 		fmt.Fprintln(os.Stderr, "jsoracle: -out is required")
